@@ -452,7 +452,7 @@ theorem addReferable_cases (parent n : Elem) :
     simp only []
     by_cases h : (findKey k parent.ch).isSome = true
     · right; right; simp [h]
-    · left; exact ⟨_, by simp [h]⟩
+    · left; exact ⟨parent.withCh (parent.ch ++ [n.withKey k]), by simp [h]⟩
 
 theorem removeReferable_cases (parent : Elem) (k : String) :
     (∃ p', removeReferable parent k = .ok p') ∨ removeReferable parent k = .py .keyError := by
@@ -471,7 +471,412 @@ theorem removeReferable_cases (parent : Elem) (k : String) :
       | some x =>
         simp only []
         by_cases hx : x.key = item.key
-        · left; exact ⟨_, by simp [hx, Bind.bind, Res.bind, pure]⟩
+        · left; exact ⟨parent.withCh (eraseKey k' parent.ch), by simp [hx, Bind.bind, Res.bind, pure]⟩
         · right; simp [hx, Bind.bind, Res.bind]
+
+
+abbrev QS : Resp → Prop := fun resp => resp.status ∈ okStatus
+
+theorem qs_mk {fn : String} {i : Nat} (h0 : respStatus fn i ∈ okStatus) (r : Req) (loc : Option Loc) (body : Bool → RBody) :
+    QS (mkResp fn i r loc body) := by
+  show (mkResp fn i r loc body).status ∈ okStatus
+  rw [respStatus_mkResp]; exact h0
+
+macro "triv" : tactic => `(tactic| first | rfl | trivial)
+
+theorem good_http {α : Type} {Q : α → Prop} {s : St} {c : Nat} (hc : c ∈ okCodes) : GoodAt Q s (liftR (.http c)) := by
+  simp [GoodAt, liftR, hc]
+
+theorem good_pure {α : Type} {Q : α → Prop} {s : St} (hI : Inv s) {a : α} (hq : Q a) : GoodAt Q s (pure a) := by
+  simp [GoodAt, hI, hq]
+
+theorem good_getRefs {s : St} (hI : Inv s) (ep : String) (a : Args) (r : Req) (h0 : respStatus ep 0 ∈ okStatus) :
+    GoodAt QS s (getRefs ep a r) := by
+  unfold getRefs
+  apply GoodAt.bind
+  rcases getObjTs_cases a.aasId .shell s with ⟨o, h, hg, hk⟩ | ⟨h, _⟩ <;> rw [h]
+  · refine ⟨rfl, ?_⟩
+    cases o with
+    | shell i ids t refs => exact good_listPage hI ep r _ h0
+    | sm i root => simp [Obj.kind] at hk
+    | cd i ids t => simp [Obj.kind] at hk
+  · simp [okCodes]
+
+theorem good_postRef {s : St} (hI : Inv s) (ep : String) (a : Args) (r : Req) (hex : expectOf ep = .ref)
+    (hr : (raiseOf ep 0 : Res Resp) = .http 409) (h0 : respStatus ep 0 ∈ okStatus) :
+    GoodAt QS s (postRef ep a r) := by
+  unfold postRef
+  apply GoodAt.bind
+  rcases getObjTs_cases a.aasId .shell s with ⟨o, h, hg, hk⟩ | ⟨h, _⟩ <;> rw [h]
+  · refine ⟨rfl, ?_⟩
+    apply GoodAt.bind
+    rcases requestBody_cases ep r (by rw [hex]; decide) with ⟨p, hp, hm⟩ | h | h
+    · simp only [liftR, hp]
+      refine ⟨trivial, ?_⟩
+      rw [hex] at hm
+      obtain ⟨x, rfl⟩ := payload_ref_of_matches hm
+      cases o with
+      | shell i ids t refs =>
+        simp only []
+        have hid : i = a.aasId := hI.ownId _ _ hg
+        by_cases hc : refs.contains x = true
+        · simp only [hc, if_true, hr]; exact good_http (by simp [okCodes])
+        · simp only [hc]
+          exact good_tail hI (by simp [Obj.id, hid]) _ (qs_mk h0 _ _ _)
+      | sm i root => simp [Obj.kind] at hk
+      | cd i ids t => simp [Obj.kind] at hk
+    · simp [liftR, h, okCodes]
+    · simp [liftR, h, okCodes]
+  · simp [okCodes]
+
+theorem good_deleteRef {s : St} (hI : Inv s) (ep : String) (a : Args) (r : Req) (h0 : respStatus ep 0 ∈ okStatus) :
+    GoodAt QS s (deleteRef ep a r) := by
+  unfold deleteRef
+  apply GoodAt.bind
+  rcases getObjTs_cases a.aasId .shell s with ⟨o, h, hg, hk⟩ | ⟨h, _⟩ <;> rw [h]
+  · refine ⟨rfl, ?_⟩
+    cases o with
+    | shell i ids t refs =>
+      simp only []
+      have hid : i = a.aasId := hI.ownId _ _ hg
+      by_cases hc : refs.contains a.smId = true
+      · simp only [hc, not_true_eq_false, if_false]
+        exact good_tail hI (by simp [Obj.id, hid]) _ (qs_mk h0 _ _ _)
+      · simp only [hc, not_false_eq_true, if_true, raise_get_submodel_reference]
+        exact good_http (by simp [okCodes])
+    | sm i root => simp [Obj.kind] at hk
+    | cd i ids t => simp [Obj.kind] at hk
+  · simp [okCodes]
+
+theorem good_listElems {s : St} (hI : Inv s) (ep : String) (a : Args) (r : Req) (h0 : respStatus ep 0 ∈ okStatus) :
+    GoodAt QS s (listElems ep a r) := by
+  unfold listElems
+  apply GoodAt.bind
+  rcases getObjTs_cases a.smId .sm s with ⟨o, h, hg, hk⟩ | ⟨h, _⟩ <;> rw [h]
+  · exact ⟨rfl, good_listPage hI ep r _ h0⟩
+  · simp [okCodes]
+
+theorem good_getElem {s : St} (hI : Inv s) (ep : String) (a : Args) (x : String) (xs : List String) (r : Req)
+    (h0 : respStatus ep 0 ∈ okStatus) : GoodAt QS s (getElem ep a (x :: xs) r) := by
+  unfold getElem
+  apply GoodAt.bind
+  rcases getObjTs_cases a.smId .sm s with ⟨o, h, hg, hk⟩ | ⟨h, _⟩ <;> rw [h]
+  · refine ⟨rfl, ?_⟩
+    apply GoodAt.bind
+    rcases getNested_cons_cases o.root x xs with ⟨e, h1, _⟩ | h1 | h1 <;> simp only [liftR, h1]
+    · exact ⟨trivial, good_pure hI (qs_mk h0 _ _ _)⟩
+    · simp [okCodes]
+    · simp [okCodes]
+  · simp [okCodes]
+
+theorem good_postElem {s : St} (hI : Inv s) (a : Args) (r : Req) :
+    GoodAt QS s (postElem "post_submodel_submodel_elements_id_short_path" a r) := by
+  unfold postElem
+  apply GoodAt.bind
+  rcases getSmOrNested_cases a s with ⟨sm, path, parent, h, hg, _⟩ | ⟨c, h, hc⟩ <;> rw [h]
+  · refine ⟨rfl, ?_⟩
+    simp only []
+    by_cases hn : parent.isNamespace = true
+    · simp only [hn, not_true_eq_false, if_false]
+      apply GoodAt.bind
+      rcases requestBody_cases "post_submodel_submodel_elements_id_short_path" r (by decide) with ⟨p, hp, hm⟩ | h | h
+      · simp only [liftR, hp]
+        refine ⟨trivial, ?_⟩
+        obtain ⟨n, rfl⟩ := payload_elem_of_matches hm
+        simp only []
+        apply GoodAt.bind
+        rcases addReferable_cases parent n with ⟨p', h1⟩ | h1 | h1 <;> simp only [liftR, h1]
+        · refine ⟨by triv, ?_⟩
+          exact good_sm_tail hI hg _ _ (qs_mk (by decide) _ _ _)
+        · rw [catch_post_elem_117]; simp [okCodes]
+        · rw [catch_post_elem_22]; simp [okCodes]
+      · simp [liftR, h, okCodes]
+      · simp [liftR, h, okCodes]
+    · simp only [hn, not_false_eq_true, if_true, raise_post_elem]
+      exact good_http (by simp [okCodes])
+  · exact ⟨rfl, hc⟩
+
+
+theorem expectSameElem_cases (e n : Elem) :
+    (expectSameElem e n = .ok () ∧ e.kind = n.kind ∧ n.idShort = e.idShort) ∨ expectSameElem e n = .http 400 := by
+  unfold expectSameElem
+  by_cases hk : e.kind = n.kind
+  · by_cases hi : n.idShort = e.idShort
+    · left; simp [hk, hi]
+    · right; simp [hk, hi, raise_same_identity_2]
+  · right; simp [hk, raise_same_identity_0]
+
+theorem good_putElem {s : St} (hI : Inv s) (a : Args) (x : String) (xs : List String) (r : Req) :
+    GoodAt QS s (putElem "put_submodel_submodel_elements_id_short_path" a (x :: xs) r) := by
+  unfold putElem
+  apply GoodAt.bind
+  rcases getObjTs_cases a.smId .sm s with ⟨sm, h, hg, hk⟩ | ⟨h, _⟩ <;> rw [h]
+  · refine ⟨rfl, ?_⟩
+    have hid : sm.id = a.smId := hI.ownId _ _ hg
+    apply GoodAt.bind
+    rcases getNested_cons_cases sm.root x xs with ⟨e, h1, _⟩ | h1 | h1 <;> simp only [liftR, h1]
+    · refine ⟨by triv, ?_⟩
+      apply GoodAt.bind
+      rcases requestBody_cases "put_submodel_submodel_elements_id_short_path" r (by decide) with ⟨p, hp, hm⟩ | h | h
+      · simp only [liftR, hp]
+        refine ⟨by triv, ?_⟩
+        obtain ⟨n, rfl⟩ := payload_elem_of_matches hm
+        simp only []
+        apply GoodAt.bind
+        rcases expectSameElem_cases e n with ⟨he, _, _⟩ | he <;> simp only [liftR, he]
+        · refine ⟨by triv, ?_⟩
+          cases herr : (updateFrom e n).2 with
+          | none =>
+            have := good_sm_tail hI hg (modifyAt (fun _ => (updateFrom e n).1) sm.root (x :: xs))
+              (commitsOf "put_submodel_submodel_elements_id_short_path")
+              (resp := mkResp "put_submodel_submodel_elements_id_short_path" 0 r none (fun _ => .empty))
+              (qs_mk (by decide) _ _ _)
+            unfold GoodAt at this ⊢
+            simpa [M.bind', herr] using this
+          | some err =>
+            have hu : UFExc err := ⟨e, n, herr⟩
+            have hs1 : InvL (AList.set a.smId (smWithRoot sm (modifyAt (fun _ => (updateFrom e n).1) sm.root (x :: xs))) s.objs) :=
+              inv_set hI (by rw [smWithRoot_id]; exact hid)
+            unfold GoodAt
+            by_cases hf : s.fileBacked = true
+            · simp [M.bind', live, liftR, herr, hf, hu]; exact hI
+            · simp [M.bind', live, liftR, herr, hf, hu, hs1]
+        · simp [okCodes]
+      · simp [liftR, h, okCodes]
+      · simp [liftR, h, okCodes]
+    · simp [okCodes]
+    · simp [okCodes]
+  · simp [okCodes]
+
+theorem good_deleteElem {s : St} (hI : Inv s) (a : Args) (r : Req) :
+    GoodAt QS s (deleteElem "delete_submodel_submodel_elements_id_short_path" a r) := by
+  unfold deleteElem
+  apply GoodAt.bind
+  rcases getSmOrNested_cases a s with ⟨sm, path, e, h, hg, _⟩ | ⟨c, h, hc⟩ <;> rw [h]
+  · refine ⟨rfl, ?_⟩
+    simp only []
+    by_cases hp : path.isEmpty = true
+    · rw [if_pos hp, raise_expect_namespace]; exact good_http (by simp [okCodes])
+    · rw [if_neg hp]
+      have h404 : GoodAt QS s (liftR (catching "_namespace_submodel_element_op" (.py .keyError) : Res Resp)) := by
+        rw [catch_ns_op]; exact good_http (by simp [okCodes])
+      split
+      · rename_i parent k _ _
+        apply GoodAt.bind
+        rcases removeReferable_cases parent k with ⟨p', h1⟩ | h1 <;> simp only [liftR, h1]
+        · refine ⟨by triv, ?_⟩
+          exact good_sm_tail hI hg _ _ (qs_mk (by decide) _ _ _)
+        · rw [catch_ns_op]; simp [okCodes]
+      · exact h404
+  · exact ⟨rfl, hc⟩
+
+theorem good_getQual {s : St} (hI : Inv s) (a : Args) (r : Req) :
+    GoodAt QS s (getQual "get_submodel_submodel_element_qualifiers" a r) := by
+  unfold getQual
+  apply GoodAt.bind
+  rcases getSmOrNested_cases a s with ⟨sm, path, e, h, hg, _⟩ | ⟨c, h, hc⟩ <;> rw [h]
+  · refine ⟨rfl, ?_⟩
+    simp only []
+    cases a.qType with
+    | none => exact good_pure hI (qs_mk (by decide) _ _ _)
+    | some t =>
+      simp only []
+      cases AList.get t e.quals with
+      | none => simp only []; rw [catch_qual_op]; exact good_http (by simp [okCodes])
+      | some v => exact good_pure hI (qs_mk (by decide) _ _ _)
+  · exact ⟨rfl, hc⟩
+
+theorem good_postQual {s : St} (hI : Inv s) (a : Args) (r : Req) :
+    GoodAt QS s (postQual "post_submodel_submodel_element_qualifiers" a r) := by
+  unfold postQual
+  apply GoodAt.bind
+  rcases getSmOrNested_cases a s with ⟨sm, path, e, h, hg, _⟩ | ⟨c, h, hc⟩ <;> rw [h]
+  · refine ⟨rfl, ?_⟩
+    simp only []
+    apply GoodAt.bind
+    rcases requestBody_cases "post_submodel_submodel_element_qualifiers" r (by decide) with ⟨p, hp, hm⟩ | h | h
+    · simp only [liftR, hp]
+      refine ⟨by triv, ?_⟩
+      obtain ⟨t, v, rfl⟩ := payload_qual_of_matches hm
+      simp only []
+      by_cases hh : AList.has t e.quals = true
+      · simp only [hh, if_true, raise_post_qual]; exact good_http (by simp [okCodes])
+      · simp only [hh]
+        exact good_sm_tail hI hg _ _ (qs_mk (by decide) _ _ _)
+    · simp [liftR, h, okCodes]
+    · simp [liftR, h, okCodes]
+  · exact ⟨rfl, hc⟩
+
+theorem good_deleteQual {s : St} (hI : Inv s) (a : Args) (r : Req) (hq : a.qType ≠ none) :
+    GoodAt QS s (deleteQual "delete_submodel_submodel_element_qualifiers" a r) := by
+  unfold deleteQual
+  apply GoodAt.bind
+  rcases getSmOrNested_cases a s with ⟨sm, path, e, h, hg, _⟩ | ⟨c, h, hc⟩ <;> rw [h]
+  · refine ⟨rfl, ?_⟩
+    simp only []
+    cases hqt : a.qType with
+    | none => exact absurd hqt hq
+    | some qt =>
+      simp only []
+      by_cases hh : AList.has qt e.quals = true
+      · simp only [hh, not_true_eq_false, if_false]
+        exact good_sm_tail hI hg _ _ (qs_mk (by decide) _ _ _)
+      · simp only [hh, not_false_eq_true, if_true, catch_qual_op]; exact good_http (by simp [okCodes])
+  · exact ⟨rfl, hc⟩
+
+theorem good_putQual {s : St} (hI : Inv s) (a : Args) (r : Req) (hq : a.qType ≠ none) :
+    GoodAt QS s (putQual "put_submodel_submodel_element_qualifiers" a r) := by
+  unfold putQual
+  apply GoodAt.bind
+  rcases getSmOrNested_cases a s with ⟨sm, path, e, h, hg, _⟩ | ⟨c, h, hc⟩ <;> rw [h]
+  · refine ⟨rfl, ?_⟩
+    simp only []
+    apply GoodAt.bind
+    rcases requestBody_cases "put_submodel_submodel_element_qualifiers" r (by decide) with ⟨p, hp, hm⟩ | h | h
+    · simp only [liftR, hp]
+      refine ⟨by triv, ?_⟩
+      obtain ⟨t, v, rfl⟩ := payload_qual_of_matches hm
+      cases hqt : a.qType with
+      | none => exact absurd hqt hq
+      | some qt =>
+        simp only []
+        by_cases hh : AList.has qt e.quals = true
+        · simp only [hh, not_true_eq_false, if_false]
+          by_cases hc2 : qt ≠ t ∧ AList.has t e.quals = true
+          · rw [if_pos hc2, raise_put_qual]; exact good_http (by simp [okCodes])
+          · rw [if_neg hc2]
+            refine good_sm_tail hI hg _ _ ?_
+            by_cases hne : qt ≠ t
+            · rw [if_pos hne]; exact qs_mk (by decide) _ _ _
+            · rw [if_neg hne]; exact qs_mk (by decide) _ _ _
+        · simp only [hh, not_false_eq_true, if_true, catch_qual_op]; exact good_http (by simp [okCodes])
+    · simp [liftR, h, okCodes]
+    · simp [liftR, h, okCodes]
+  · exact ⟨rfl, hc⟩
+
+
+/-! ### routing and argument conversion never raise a Python exception -/
+
+theorem validateIdShort_cases (x : String) :
+    validateIdShort x = .ok () ∨ validateIdShort x = .py .valueError ∨ validateIdShort x = .py (.aascv 2) := by
+  unfold validateIdShort
+  simp only []
+  split
+  · right; left; rfl
+  · split
+    · right; right; rfl
+    · split
+      · split
+        · left; rfl
+        · right; right; rfl
+      · right; left; rfl
+
+theorem idShortPathToPython_cases (raw : String) :
+    (∃ v, idShortPathToPython raw = .ok v) ∨ idShortPathToPython raw = .http 400 := by
+  unfold idShortPathToPython
+  simp only []
+  cases hf : (raw.splitOn ".").find? (fun s => ¬ validIdShort s) with
+  | none => left; exact ⟨_, rfl⟩
+  | some bad =>
+    right
+    have hb := List.find?_some hf
+    have hb' : validIdShort bad = false := by simpa using hb
+    simp only []
+    rcases validateIdShort_cases bad with h | h | h
+    · simp [validIdShort, h] at hb'
+    · rw [h]; exact catch_to_python_value
+    · rw [h]; exact catch_to_python_aascv
+
+theorem base64urlDecode_cases (d : B64) : (∃ v, base64urlDecode d = .ok v) ∨ base64urlDecode d = .http 400 := by
+  cases d with
+  | ok v => left; exact ⟨v, rfl⟩
+  | binascii => right; exact catch_b64_binascii
+  | unicode => right; exact catch_b64_unicode
+  | nonAscii => right; exact catch_b64_value
+
+theorem convertArgs_cases (caps : List (Pat × List Seg)) (a : Args) :
+    (∃ a', convertArgs caps a = .ok a') ∨ convertArgs caps a = .http 400 := by
+  induction caps generalizing a with
+  | nil => left; exact ⟨a, rfl⟩
+  | cons c rest ih =>
+    obtain ⟨pat, segs⟩ := c
+    cases pat with
+    | lit s => simpa [convertArgs] using ih a
+    | rest n => simpa [convertArgs] using ih a
+    | b64 n =>
+      cases segs with
+      | nil => simpa [convertArgs] using ih a
+      | cons x xs =>
+        cases xs with
+        | cons y ys => simpa [convertArgs] using ih a
+        | nil =>
+          simp only [convertArgs]
+          rcases base64urlDecode_cases x.dec with ⟨v, h⟩ | h <;> rw [h]
+          · exact ih _
+          · right; rfl
+    | idPath n =>
+      cases segs with
+      | nil => simpa [convertArgs] using ih a
+      | cons x xs =>
+        cases xs with
+        | cons y ys => simpa [convertArgs] using ih a
+        | nil =>
+          simp only [convertArgs]
+          rcases idShortPathToPython_cases x.raw with ⟨v, h⟩ | h <;> rw [h]
+          · exact ih _
+          · right; rfl
+
+theorem route_cases (r : Req) :
+    (∃ ep a, route r = .ok (ep, a)) ∨ route r = .http 400 ∨ route r = .http 404 ∨ route r = .http 405 := by
+  unfold route
+  cases selectRule r.method r.path ruleTable (false, none) with
+  | mk anyPath best =>
+    cases best with
+    | some c =>
+      simp only []
+      rcases convertArgs_cases c.caps {} with ⟨a, h⟩ | h <;> rw [h]
+      · left; exact ⟨_, _, rfl⟩
+      · right; left; rfl
+    | none =>
+      cases anyPath with
+      | true => right; right; right; exact throw_method_not_allowed
+      | false => right; right; left; exact throw_not_found
+
+
+/-! ### every modelled handler is exception safe -/
+
+theorem good_handlerOf {s : St} (hI : Inv s) (ep : String) (a : Args) (r : Req) (h : M Resp)
+    (hh : handlerOf ep a r = some h) :
+    (ep = "not_implemented" ∧ h = liftR (.http 501)) ∨ GoodAt QS s h := by
+  unfold handlerOf at hh
+  split at hh
+  all_goals first
+    | (injection hh with hh; subst hh; left; exact ⟨rfl, by rw [raise_not_implemented]⟩)
+    | (injection hh with hh; subst hh; right; exact good_listObjs hI _ _ _ (by decide))
+    | (injection hh with hh; subst hh; right; exact good_postObj hI _ _ _ (by decide) rfl (by decide))
+    | (injection hh with hh; subst hh; right; exact good_getObj _ _ _ _ _ hI (by decide))
+    | (injection hh with hh; subst hh; right; exact good_putObj hI _ _ _ _ (by decide) (by decide))
+    | (injection hh with hh; subst hh; right; exact good_deleteObj hI _ _ _ _ (by decide))
+    | (injection hh with hh; subst hh; right; exact good_getRefs hI _ _ _ (by decide))
+    | (injection hh with hh; subst hh; right; exact good_postRef hI _ _ _ (by decide) rfl (by decide))
+    | (injection hh with hh; subst hh; right; exact good_deleteRef hI _ _ _ (by decide))
+    | (injection hh with hh; subst hh; right; exact good_listElems hI _ _ _ (by decide))
+    | (injection hh with hh; subst hh; right; exact good_postElem hI _ _)
+    | (injection hh with hh; subst hh; right; exact good_deleteElem hI _ _)
+    | (injection hh with hh; subst hh; right; exact good_getQual hI _ _)
+    | (injection hh with hh; subst hh; right; exact good_postQual hI _ _)
+    | (split at hh
+       · injection hh with hh; subst hh; right; exact good_getElem hI _ _ _ _ _ (by decide)
+       · cases hh)
+    | (split at hh
+       · injection hh with hh; subst hh; right; exact good_putElem hI _ _ _ _
+       · cases hh)
+    | (split at hh
+       · rename_i q hq; injection hh with hh; subst hh; right; exact good_putQual hI _ _ (by rw [hq]; simp)
+       · cases hh)
+    | (split at hh
+       · rename_i q hq; injection hh with hh; subst hh; right; exact good_deleteQual hI _ _ (by rw [hq]; simp)
+       · cases hh)
+    | cases hh
 
 end Basyx.Repo
